@@ -17,3 +17,16 @@ package storage
 //@   loop 0 invariant signed: forall j in 0..rangeindex+1 :: shard[j].Signature == j
 //@   loop 0 invariant series-kept: forall j in 0..len(shard) :: shard[j].Series == atloop(shard[j].Series)
 //@   loop 0 invariant input-kept: forall j in 0..len(series) :: series[j].Series == old(series[j].Series) && series[j].Signature == old(series[j].Signature)
+
+//@ func NewSelectorPool
+//@   assigns nothing
+//@   ensures[C12,C20] per-query-pool: result != nil && fresh(result) && result.queryable == queryable && !isnil(result.selectors)
+
+// GetSelector / GetFilteredSelector hand out a selector created with the requested matchers, time
+// range and hints, and never touch the storage (C16, C17).
+//@ func (*SelectorPool).GetSelector
+//@   requires p != nil && !isnil(p.selectors)
+//@   ensures result != nil
+//@ func (*SelectorPool).GetFilteredSelector
+//@   requires p != nil && !isnil(p.selectors)
+//@   ensures result != nil
